@@ -79,6 +79,11 @@ func (e *Evidence) addRun(label string, params map[string]int, st *interp.Stats,
 		"solver_time_s": round2(st.SolverTime.Seconds()), "wall_s": round2(st.Wall.Seconds()),
 		"closed": !st.Capped,
 	})
+	if st.RaceAccesses > 0 || st.RaceSyncOps > 0 {
+		e.runs[len(e.runs)-1].(map[string]interface{})["race_detection"] = map[string]interface{}{
+			"memory_accesses_checked": st.RaceAccesses, "synchronisation_operations": st.RaceSyncOps, "max_goroutines_on_a_path": st.RaceGoroutines,
+		}
+	}
 }
 
 func renderSample(in []interp.InputVal) map[string]interface{} {
